@@ -36,6 +36,7 @@ type gstep struct {
 	K     string `json:"k"`
 	V     int    `json:"v"`
 	R     string `json:"r"`
+	Rg    string `json:"rg"`
 	Det   bool   `json:"det"`
 	Early bool   `json:"early"`
 }
@@ -51,21 +52,22 @@ type gcase struct {
 type gdone struct {
 	s, pc int
 	k, r  string
+	rg    string
 	vals  []int
 	n     int // operations of the burst that completed
 }
 
 type grun struct {
-	id      int
-	scripts [][]op
-	burst   int
-	gate    [][]chan struct{}
-	opened  [][]bool
-	done    chan gdone
-	started chan int
-	mu      sync.Mutex
-	out     []*os.File // write end of each stage's output pipe (nil for the last stage)
-	pages   []int      // capacity of that pipe in 4096-byte lines
+	id       int
+	scripts  [][]op
+	burst    int
+	gate     [][]chan struct{}
+	opened   [][]bool
+	done     chan gdone
+	started  chan int
+	mu       sync.Mutex
+	out      []*os.File // write end of each stage's output pipe (nil for the last stage)
+	pages    []int      // capacity of that pipe in 4096-byte lines
 	progress *tracer
 }
 
@@ -160,7 +162,11 @@ func gstageCmd(fm *eval.Frame, id, s int) error {
 					break
 				}
 			}
-			g.report(gdone{s: s, pc: pc, k: "putb", r: outcome(err), n: j})
+			rg := "u"
+			if outcome(err) == "gone" {
+				rg = readerGoneFlag(fm.Port(1))
+			}
+			g.report(gdone{s: s, pc: pc, k: "putb", r: outcome(err), n: j, rg: rg})
 			if err != nil {
 				return err
 			}
@@ -291,10 +297,14 @@ func replayBehaviour(ev *eval.Evaler, id int, gc *gcase, modelCap, realCapacity 
 			for range g.done {
 			}
 		}()
+		grace := wd.giveUp
+		if v.hang != nil {
+			grace = 2 * time.Second // the evaluation is parked for good: its goroutines are abandoned
+		}
 		select {
 		case <-evalDone:
 			collect()
-		case <-time.After(wd.giveUp):
+		case <-time.After(grace):
 		}
 		return v
 	}
@@ -386,12 +396,15 @@ func replayBehaviour(ev *eval.Evaler, id int, gc *gcase, modelCap, realCapacity 
 		if ok && (st.R == "gone" || st.R == "closed") {
 			ok = d.n == 0
 		}
+		if ok && st.Rg != "u" && d.rg != "u" && d.rg != "" {
+			ok = st.Rg == d.rg // the port's readerGone flag after a failed write
+		}
 		if !ok {
 			if !st.Det && d.k == st.K && (d.r == "ok" || d.r == "gone") {
 				return fail(gverdict{diverged: true, steps: i})
 			}
-			return fail(gverdict{steps: i, mismatch: fmt.Sprintf("step %d: stage %d operation %d: the specification prescribes %s %d -> %s, the real code did %s -> %s after %d of %d burst operations, values %v",
-				i+1, st.S, st.Pc+1, st.K, st.V, st.R, d.k, d.r, d.n, want, d.vals)})
+			return fail(gverdict{steps: i, mismatch: fmt.Sprintf("step %d: stage %d operation %d: the specification prescribes %s %d -> %s, the real code did %s -> %s after %d of %d burst operations, values %v, readerGone %q (prescribed %q)",
+				i+1, st.S, st.Pc+1, st.K, st.V, st.R, d.k, d.r, d.n, want, d.vals, d.rg, st.Rg)})
 		}
 		for _, j := range releaseAfter[i] {
 			g.open(gc.Steps[j].S, gc.Steps[j].Pc)
